@@ -317,8 +317,9 @@ def short_inputs(run, m, F, E, pairs):
             allowed = set([0])
             if p.tgt == 'latin_1' and fl == 0:
                 allowed.add(errs.get('latin1_out_of_range'))
-            for size in (1, 2):
+            for size in ((1, 2, 3, 4) if run.tier == 'thorough' else (1, 2)):
                 n += 1
+                XH.unroll = size + 2
                 I = Interp(m, F, E, XH())
                 st = conv.base_state(eb_src)
                 st.rng['n'] = (size, size)
